@@ -205,7 +205,7 @@ def main(argv):
       new_fail.append(f)
   for f in new_fail:
     for h, hs in KANI.items():
-      if f.get("fn") in hs.get("pairs_fn", []) and h not in want:
+      if hs["kind"] != "witness" and f.get("fn") in hs.get("pairs_fn", []) and h not in want:
         want.append(h)
   kres, sc = kani_phase(want) if want else ({}, None)
   bounded = []
